@@ -804,6 +804,7 @@ func ruleC03Pool(r *Run) {
 	r.Check(rule, "rux.New:ctxPool.New", newFn.Pos(), okNew, "the pool constructor returns a freshly allocated *Context")
 	// every other sync.Pool of the module: a pooled object must be re-initialised before it is used again
 	genericPools(r, rule, poolF)
+	poolOwnership(r, rule, poolF)
 	// who-may-construct responseWriter: only as the writer field of a Context
 	rwT := w.Named("rux", "responseWriter")
 	for _, f := range w.Funcs {
@@ -912,9 +913,281 @@ func genericPools(r *Run, rule string, ctxPoolF *types.Var) {
 					}
 				}
 			}
+			// or: every Put into this pool is preceded, in the same function, by emptying / resetting what is put
+			if !okReset {
+				poolKey := canon(callArgs(g)[0])
+				puts, cleared := 0, 0
+				for _, pf := range w.Funcs {
+					for _, pc := range callsIn(pf, func(c ssa.CallInstruction) bool {
+						return calleeName(c) == "(*sync.Pool).Put" && canon(callArgs(c)[0]) == poolKey
+					}) {
+						puts++
+						pv := callArgs(pc)[1]
+						if mi, ok := pv.(*ssa.MakeInterface); ok {
+							pv = mi.X
+						}
+						okC := false
+						for _, ref := range *pv.Referrers() {
+							switch x := ref.(type) {
+							case *ssa.Range:
+								for _, r2 := range *pv.Referrers() {
+									if c, ok := r2.(*ssa.Call); ok && isBuiltin(c, "delete") && c.Call.Args[0] == pv && inLoop(c) && canReach(x, pc.(ssa.Instruction)) {
+										okC = true
+									}
+								}
+							case *ssa.Call:
+								if (isBuiltin(x, "clear") && x.Call.Args[0] == pv || isReset(x, pv)) && dominates(x, pc.(ssa.Instruction)) {
+									okC = true
+								}
+							}
+						}
+						if okC {
+							cleared++
+						}
+					}
+				}
+				if puts > 0 && puts == cleared {
+					okReset = true
+				}
+			}
+			// a pooled map emptied by "for k := range m { delete(m, k) }" or clear(m) before anything else uses it
+			for _, v := range vals {
+				var clearAt ssa.Instruction
+				for _, ref := range *v.Referrers() {
+					switch x := ref.(type) {
+					case *ssa.Range:
+						// a delete(v, key) inside the loop over v
+						for _, r2 := range *v.Referrers() {
+							if c, ok := r2.(*ssa.Call); ok && isBuiltin(c, "delete") && c.Call.Args[0] == v && inLoop(c) {
+								clearAt = x
+							}
+						}
+					case *ssa.Call:
+						if isBuiltin(x, "clear") && x.Call.Args[0] == v {
+							clearAt = x
+						}
+					}
+				}
+				if clearAt == nil {
+					continue
+				}
+				all := true
+				for _, ref := range *v.Referrers() {
+					switch y := ref.(type) {
+					case *ssa.DebugRef, *ssa.TypeAssert, *ssa.Extract, *ssa.Range:
+						continue
+					case *ssa.Call:
+						if isBuiltin(y, "delete") || isBuiltin(y, "clear") {
+							continue
+						}
+					}
+					if ref != clearAt && !dominates(clearAt, ref) {
+						all = false
+					}
+				}
+				if all {
+					okReset = true
+				}
+			}
 			r.Check(rule, construct, w.InstrPos(g), okReset, map[bool]string{true: "the pooled object is reset before it is used (or before it is returned to the pool)", false: "an object taken from a sync.Pool is used without being reset: whatever an earlier user left in it (e.g. bytes buffered before an error return) leaks into this request's output"}[okReset])
 		}
 	}
+}
+
+// poolOwnership: an object that circulates through a sync.Pool (other than the context pool) has exactly one owner
+// at a time. (1) Nothing that comes out of the pool is stored into a field of a long-lived object (a route, the
+// cache, the router) — the next Get hands the same object to another request while that field still points at it.
+// (2) Nothing that is put back derives from such a field — the pool would recycle an object that a shared structure
+// (a cached route's parameter map) still uses. Provenance is followed backwards through results of module
+// functions, parameters (all call sites), phis, assertions and — field-based, object-insensitive — through loads
+// of struct fields to every store into the same field.
+func poolOwnership(r *Run, rule string, ctxPoolF *types.Var) {
+	w := r.W
+	ctxT := w.Named("rux", "Context")
+	callers := map[*ssa.Function][]ssa.CallInstruction{}
+	stores := map[*types.Var][]*ssa.Store{}
+	for _, f := range w.Funcs {
+		eachInstr(f, func(in ssa.Instruction) {
+			if c, ok := in.(ssa.CallInstruction); ok {
+				if sc := staticCallee(c); sc != nil && w.InModule(sc) {
+					callers[sc] = append(callers[sc], c)
+				}
+			}
+			if st, ok := in.(*ssa.Store); ok {
+				if fa, ok := st.Addr.(*ssa.FieldAddr); ok {
+					if fv := fieldVar(fa.X.Type(), fa.Field); fv != nil {
+						stores[fv] = append(stores[fv], st)
+					}
+				}
+			}
+		})
+	}
+	isPoolGet := func(v ssa.Value) bool {
+		c, ok := v.(*ssa.Call)
+		return ok && calleeName(c) == "(*sync.Pool).Get" && !unwrapAddr(callArgs(c)[0]).hasField(ctxPoolF)
+	}
+	sharedField := func(fv *types.Var) bool {
+		// a field of a module struct other than Context (request-local by C10/C03-POOL)
+		for _, p := range w.Pkgs {
+			sc := p.Types.Scope()
+			for _, n := range sc.Names() {
+				tn, ok := sc.Lookup(n).(*types.TypeName)
+				if !ok {
+					continue
+				}
+				st, ok := tn.Type().Underlying().(*types.Struct)
+				if !ok {
+					continue
+				}
+				for i := 0; i < st.NumFields(); i++ {
+					if st.Field(i) == fv {
+						return !types.Identical(tn.Type(), ctxT)
+					}
+				}
+			}
+		}
+		return false
+	}
+	// derives: does v (backwards) come from a value satisfying src? throughFields: follow field loads to stores
+	var derives func(v ssa.Value, src func(ssa.Value) bool, seen map[ssa.Value]bool, d int) (bool, string)
+	derives = func(v ssa.Value, src func(ssa.Value) bool, seen map[ssa.Value]bool, d int) (bool, string) {
+		if v == nil || seen[v] || d > 40 {
+			return false, ""
+		}
+		seen[v] = true
+		if src(v) {
+			return true, shortCanon(canon(v))
+		}
+		switch x := v.(type) {
+		case *ssa.Phi:
+			for _, e := range x.Edges {
+				if ok, what := derives(e, src, seen, d+1); ok {
+					return true, what
+				}
+			}
+		case *ssa.TypeAssert:
+			return derives(x.X, src, seen, d+1)
+		case *ssa.ChangeType:
+			return derives(x.X, src, seen, d+1)
+		case *ssa.MakeInterface:
+			return derives(x.X, src, seen, d+1)
+		case *ssa.Extract:
+			if c, ok := x.Tuple.(*ssa.Call); ok {
+				if sc := staticCallee(c); sc != nil && w.InModule(sc) && sc.Blocks != nil {
+					found, what := false, ""
+					eachInstr(sc, func(in ssa.Instruction) {
+						if ret, ok := in.(*ssa.Return); ok && x.Index < len(ret.Results) && !found {
+							found, what = derives(ret.Results[x.Index], src, seen, d+1)
+						}
+					})
+					return found, what
+				}
+			}
+			return derives(x.Tuple, src, seen, d+1)
+		case *ssa.Call:
+			if sc := staticCallee(x); sc != nil && w.InModule(sc) && sc.Blocks != nil {
+				found, what := false, ""
+				eachInstr(sc, func(in ssa.Instruction) {
+					if ret, ok := in.(*ssa.Return); ok && len(ret.Results) == 1 && !found {
+						found, what = derives(ret.Results[0], src, seen, d+1)
+					}
+				})
+				return found, what
+			}
+		case *ssa.Parameter:
+			f := x.Parent()
+			idx := -1
+			for i, prm := range f.Params {
+				if prm == x {
+					idx = i
+				}
+			}
+			for _, c := range callers[f] {
+				args := callArgs(c)
+				if idx >= 0 && idx < len(args) {
+					if ok, what := derives(args[idx], src, seen, d+1); ok {
+						return true, what
+					}
+				}
+			}
+		case *ssa.UnOp:
+			if x.Op != token.MUL {
+				return false, ""
+			}
+			switch a := x.X.(type) {
+			case *ssa.Alloc:
+				for _, ref := range *a.Referrers() {
+					if st, ok := ref.(*ssa.Store); ok && st.Addr == ssa.Value(a) {
+						if ok2, what := derives(st.Val, src, seen, d+1); ok2 {
+							return true, what
+						}
+					}
+				}
+			case *ssa.FieldAddr:
+				if fv := fieldVar(a.X.Type(), a.Field); fv != nil {
+					for _, st := range stores[fv] {
+						if ok2, what := derives(st.Val, src, seen, d+1); ok2 {
+							return true, what
+						}
+					}
+				}
+			}
+		}
+		return false, ""
+	}
+	n := 0
+	// (1) stores into shared fields
+	var fvs []*types.Var
+	for fv := range stores {
+		fvs = append(fvs, fv)
+	}
+	sort.Slice(fvs, func(i, j int) bool { return fvs[i].Pos() < fvs[j].Pos() })
+	anyPool := false
+	for _, f := range w.Funcs {
+		eachInstr(f, func(in ssa.Instruction) {
+			if c, ok := in.(*ssa.Call); ok && isPoolGet(c) {
+				anyPool = true
+			}
+		})
+	}
+	if !anyPool {
+		return
+	}
+	for _, fv := range fvs {
+		if !sharedField(fv) {
+			continue
+		}
+		for _, st := range stores[fv] {
+			if ok, what := derives(st.Val, isPoolGet, map[ssa.Value]bool{}, 0); ok {
+				n++
+				r.Check(rule, fmt.Sprintf("%s:pooled object kept in %s#%d", FuncName(st.Parent()), fv.Name(), n), w.InstrPos(st), false,
+					"an object that comes out of a sync.Pool ("+what+") is stored into the field "+fv.Name()+" of a long-lived object: when its request puts it back, the pool hands the same object to another request while this field still points at it (a cached route's parameters are then overwritten by an unrelated request)")
+			}
+		}
+	}
+	// (2) Put of something that derives from a shared field
+	for _, f := range w.Funcs {
+		eachInstr(f, func(in ssa.Instruction) {
+			c, ok := in.(ssa.CallInstruction)
+			if !ok || calleeName(c) != "(*sync.Pool).Put" || unwrapAddr(callArgs(c)[0]).hasField(ctxPoolF) {
+				return
+			}
+			fromShared := func(v ssa.Value) bool {
+				ld, ok := v.(*ssa.UnOp)
+				if !ok || ld.Op != token.MUL {
+					return false
+				}
+				fa, ok := ld.X.(*ssa.FieldAddr)
+				return ok && sharedField(fieldVar(fa.X.Type(), fa.Field))
+			}
+			if ok2, what := derives(callArgs(c)[1], fromShared, map[ssa.Value]bool{}, 0); ok2 {
+				n++
+				r.Check(rule, fmt.Sprintf("%s:Put of a shared object#%d", FuncName(f), n), w.InstrPos(in), false,
+					"what is put back into the pool can be an object that a long-lived structure still holds ("+what+"): the pool recycles it for another request while e.g. the cache entry keeps pointing at it")
+			}
+		})
+	}
+	r.Check(rule, "pooled objects have one owner", token.NoPos, n == 0, "no pooled object is kept in a long-lived field, and nothing taken from such a field is put into a pool")
 }
 
 // PHASE: request-phase code never compiles patterns nor calls registration roots.
